@@ -76,6 +76,7 @@ static int process_completed_block(sqfs_block_processor_t *proc, sqfs_block_t *b
 		}
 	}
 
+	VERIF_EVENT(11, blk->io_seq_num, blk->flags, blk->size);
 	err = proc->wr->write_data_block(proc->wr, blk->user, blk->size,
 					 blk->checksum,
 					 blk->flags & ~BLK_FLAG_INTERNAL,
@@ -166,6 +167,9 @@ static int process_completed_fragment(sqfs_block_processor_t *proc,
 		}
 
 		if (entry != NULL) {
+			VERIF_EVENT(12, ((chunk_info_t *)entry->data)->index,
+				    ((chunk_info_t *)entry->data)->offset,
+				    frag->size);
 			if (frag->inode != NULL) {
 				chunk = entry->data;
 				sqfs_inode_set_frag_location(*(frag->inode),
@@ -182,6 +186,8 @@ static int process_completed_fragment(sqfs_block_processor_t *proc,
 
 		if (size > proc->max_block_size) {
 			proc->frag_block->io_seq_num = proc->io_seq_num++;
+			VERIF_EVENT(14, proc->frag_block->index,
+				    proc->frag_block->io_seq_num, 0);
 
 			err = enqueue_block(proc, proc->frag_block);
 			proc->frag_block = NULL;
@@ -244,6 +250,7 @@ static int process_completed_fragment(sqfs_block_processor_t *proc,
 			goto fail;
 	}
 
+	VERIF_EVENT(13, index, offset, frag->size);
 	if (frag->inode != NULL)
 		sqfs_inode_set_frag_location(*(frag->inode), index, offset);
 
@@ -326,6 +333,9 @@ int dequeue_block(sqfs_block_processor_t *proc)
 			    (blk->flags & BLK_FLAG_MANUAL_SUBMISSION)) {
 				blk->io_seq_num = proc->io_seq_num++;
 			}
+
+			VERIF_EVENT(10, blk->io_seq_num, blk->flags,
+				    blk->index);
 
 			store_io_block(proc, blk);
 		}
